@@ -217,3 +217,16 @@ def cal_probe(detector, **kwargs) -> None:
     detector.pixel.array = data.copy()
     detector.signal.array = data.copy()
     detector.image.array = np.asarray(np.clip(np.floor(data), 0, 2**31), dtype="uint32")
+
+
+def c19_fill(detector, a: float = 0.0, b: float = 0.0) -> None:
+    """C19: fill all five buckets with distinct, parameter-dependent, position-dependent values:
+    bucket[y, x] = base_bucket + 16*a + b + (y*cols + x)/64   (image: uint16 of 5000 + 16*a + b + y*cols + x)"""
+    rows, cols = detector.geometry.shape
+    idx = np.arange(rows * cols, dtype=float).reshape(rows, cols)
+    off = 16.0 * float(a) + float(b)
+    detector.photon.array = 1000.0 + off + idx / 64.0
+    detector.charge.add_charge_array(2000.0 + off + idx / 64.0)
+    detector.pixel.array = 3000.0 + off + idx / 64.0
+    detector.signal.array = 4000.0 + off + idx / 64.0
+    detector.image.array = np.asarray(5000.0 + off + idx, dtype=np.uint16)
